@@ -540,6 +540,11 @@ def fixed_workloads():
         _call(0, "pd", {"a": [1, 2]}),
         _call(1, "pl_df", {"a": [3, 400]}, lazy=True),
     ]))
+    # one schema with a regex column (validated per matched column) shared by two calls
+    W.append(_wl("pd-shared-regex/two-matches", [_schema("pd", [_col("^a.*$", regex=True, checks=gt0)])], [
+        _call(0, "pd", {"a1": [1, 2], "a2": [3, 4]}),
+        _call(0, "pd", {"a1": [1, 2], "a2": [-3, 4]}),
+    ]))
     # a model whose definition is broken (its first use raises SchemaInitError) next to a healthy model nobody has
     # compiled yet: the failing compilation must not keep anything (a lock, a half-built cache entry) from the other
     W.append(_wl("pd-distinct/model-broken+model-cold", [
@@ -599,10 +604,6 @@ def fixed_workloads():
         _call(0, "pd", {"a": [1, 2, 3], "b": [0.5, None, 1.5]}, head=2),
         _call(0, "pd", {"a": [1, 1, 300], "b": [0.5, 0.5, 1.5], "c": ["x", None, "y"]}, lazy=True, inplace=True),
     ]))
-    W.append(_wl("pd-shared-regex/two-matches", [_schema("pd", [_col("^a.*$", regex=True, checks=gt0)])], [
-        _call(0, "pd", {"a1": [1, 2], "a2": [3, 4]}),
-        _call(0, "pd", {"a1": [1, 2], "a2": [-3, 4]}),
-    ]))
     W.append(_wl("cfg/pd+pl_lf", [_schema("pd", [_col("a", checks=gt0)]), pl_gt], [
         _call(0, "pd", {"a": [-1, 2]}),
         _call(1, "pl_lf", {"a": [1, 2]}),
@@ -631,7 +632,7 @@ def fixed_workloads():
     return W
 
 
-QUICK = 11
+QUICK = 12
 
 
 def _tier_workloads(tier):
